@@ -434,13 +434,19 @@ def tyMap : String → Option TMap
   | "llong" => some (contiguous 1 (basic 1))
   | "pod" => some (contiguous 3 (basic 1))
   | "fv3" => some (fieldVector 0 3 (basic 1))
-  | "big96" => some (bigUnsigned 0 1 (basic 1))
+  | "big96" | "big40" => some (bigUnsigned 0 1 (basic 1))
   | "pair" => some (pair 0 (basic 1) 1 (basic 1) 2)
+  -- pair<long long, char>: the first member goes through the byte-wise fallback; nested in a pair / a FieldVector
+  | "pairlc" => some (pair 0 (contiguous 1 (basic 1)) 1 (basic 1) 2)
+  | "ppair" => some (pair 0 (pair 0 (contiguous 1 (basic 1)) 1 (basic 1) 2) 2 (basic 1) 3)
+  | "fvp" => some (fieldVector 0 2 (pair 0 (contiguous 1 (basic 1)) 1 (basic 1) 2))
   | "pli" => some (localIndex 1 (basic 1) 4)
   | "ip" => some (indexPair 0 (basic 1) 1 (localIndex 1 (basic 1) 4) 5)
   | _ => none
 
 def two96 : Int := 79228162514264337593543950336
+/-- `bigunsignedint<40>` keeps three full 16-bit digits -/
+def two48 : Int := 281474976710656
 
 def lexLt : List Int → List Int → Bool
   | [], [] => false
@@ -495,8 +501,12 @@ def redOp (ty fn : String) : Option (List Int → List Int → List Int) :=
       | _, _ => []
   | "big96", "sum" => some (zipOp fun a b => (a + b) % two96)
   | "big96", "prod" => some (zipOp fun a b => (a * b) % two96)
-  | "pair", "min" => some fun a b => if lexLt b a then b else a
-  | "pair", "max" => some fun a b => if lexLt a b then b else a
+  | "big40", "sum" => some (zipOp fun a b => (a + b) % two48)
+  | "big40", "prod" => some (zipOp fun a b => (a * b) % two48)
+  | "big40", "min" => some (zipOp min)
+  | "big40", "max" => some (zipOp max)
+  | "pair", "min" | "pairlc", "min" => some fun a b => if lexLt b a then b else a
+  | "pair", "max" | "pairlc", "max" => some fun a b => if lexLt a b then b else a
   | _, _ => none
 
 end DV.C07
